@@ -1,3 +1,346 @@
-import ColoVerif.Model.Expand
+import ColoVerif.Proofs.Expand
+/-
+C18 — cell expansion respects density caps and never touches fixed cells.
+
+All theorems are about the definitions of `Model/Expand.lean`, which the driver `drv_C18` executes
+against `Circuit::expandCellsToDensity`, `expandCellsByFactor`, `computeCellExpansion` and
+`computeRowPlacementArea`.  They are over exact rationals: floating-point rounding is not modelled
+(see `PARTIAL` in tools/props/C18.py).  `FrameCell a b` (Proofs/Expand.lean): `b` is `a` except possibly
+for its width, and `b = a` when `a` is fixed.  `NonnegSizes`: movable cells have non-negative sizes (the
+property's domain).  `expandCellsByFactor` is the repaired function (fixes/expand-by-factor-area.diff);
+`legacy_byFactor_exceeds_cap` shows that the unrepaired one breaks the cap.
+-/
 namespace ColoVerif.C18
+open ColoVerif ColoVerif.Expand
+
+/-! ### frame -/
+
+/-- `expandCellsToDensity` changes only widths of movable cells. -/
+theorem expand_frame (c : Circuit) (target margin maxExp : Rat) :
+    (expandCellsToDensity c target margin maxExp).rows = c.rows ∧
+    (expandCellsToDensity c target margin maxExp).nets = c.nets ∧
+    (expandCellsToDensity c target margin maxExp).cells.length = c.cells.length ∧
+    ∀ i, FrameCell (c.cell i) ((expandCellsToDensity c target margin maxExp).cell i) := by
+  unfold expandCellsToDensity
+  split
+  · exact ⟨rfl, rfl, rfl, fun i => FrameCell.refl _⟩
+  · exact ⟨rfl, rfl, expandCells_length _ _ _ _, fun i => frame_expandCells _ _ _ _ i⟩
+
+/-- `expandCellsByFactor` changes only widths of movable cells (and nothing when it throws). -/
+theorem expand_frame_byFactor (c c' : Circuit) (efs : List Rat) (maxD margin ret : Rat)
+    (h : expandCellsByFactor c efs maxD margin = some (c', ret)) :
+    c'.rows = c.rows ∧ c'.nets = c.nets ∧ c'.cells.length = c.cells.length ∧
+    ∀ i, FrameCell (c.cell i) (c'.cell i) := by
+  unfold expandCellsByFactor at h
+  split at h
+  · simp at h
+  · simp only [Option.some.injEq] at h
+    unfold byFactorWith at h
+    split at h
+    · obtain ⟨rfl, _⟩ := Prod.mk.inj h
+      exact ⟨rfl, rfl, rfl, fun i => FrameCell.refl _⟩
+    · split at h
+      · obtain ⟨rfl, _⟩ := Prod.mk.inj h
+        exact ⟨rfl, rfl, rfl, fun i => FrameCell.refl _⟩
+      · obtain ⟨rfl, _⟩ := Prod.mk.inj h
+        exact ⟨rfl, rfl, applyFactors_length _ _, fun i => frame_applyFactors _ _ i⟩
+
+/-! ### no-op when already dense -/
+
+/-- No movable area, no row area, or density already at the target: nothing changes. -/
+theorem noop_when_dense (c : Circuit) (target margin maxExp : Rat)
+    (h : movableArea c.cells = 0 ∨ rowPlacementArea c margin = 0 ∨
+      (movableArea c.cells : Rat) / (rowPlacementArea c margin : Rat) ≥ target) :
+    expandCellsToDensity c target margin maxExp = c := by
+  unfold expandCellsToDensity
+  rw [if_pos (show densityNoop c target margin from h)]
+
+theorem noop_when_dense_byFactor (c : Circuit) (efs : List Rat) (maxD margin : Rat)
+    (hvalid : ¬ (efs.length ≠ c.cells.length ∨ efs.any (fun e => decide (e < minFactor)) = true))
+    (h : movableArea c.cells = 0 ∨ rowPlacementArea c margin = 0 ∨ density c margin ≥ maxD) :
+    expandCellsByFactor c efs maxD margin = some (c, 1) := by
+  unfold expandCellsByFactor
+  rw [if_neg hvalid]
+  unfold byFactorWith
+  by_cases h0 : movableArea c.cells = 0 ∨ rowPlacementArea c margin = 0
+  · rw [if_pos h0]
+  · rw [if_neg h0]
+    have : density c margin ≥ maxD := by
+      rcases h with h | h | h
+      · exact absurd (Or.inl h) h0
+      · exact absurd (Or.inr h) h0
+      · exact h
+    rw [if_pos this]
+
+/-! ### expansion to a density: never narrower, carry bound -/
+
+theorem maxRowWidth_nonneg (rows : List Row) : 0 ≤ maxRowWidth rows := by
+  have : ∀ (l : List Row) (acc : Int), acc ≤ l.foldl (fun m r => max m r.rect.width) acc := by
+    intro l
+    induction l with
+    | nil => intro acc; exact Int.le_refl _
+    | cons r rs ih => intro acc; exact Int.le_trans (by omega) (ih (max acc r.rect.width))
+  exact this rows 0
+
+theorem factor_ge_one (c : Circuit) (target margin : Rat) (hA : 0 < movableArea c.cells)
+    (hR : 0 < rowPlacementArea c margin) (hn : ¬ densityNoop c target margin) :
+    1 ≤ densityFactor c target margin := by
+  have hd : 0 < (movableArea c.cells : Rat) / (rowPlacementArea c margin : Rat) :=
+    rat_div_pos (Rat.intCast_pos.mpr hA) (Rat.intCast_pos.mpr hR)
+  have hlt : (movableArea c.cells : Rat) / (rowPlacementArea c margin : Rat) < target := by
+    unfold densityNoop at hn
+    exact Rat.not_le.mp (fun h => hn (Or.inr (Or.inr h)))
+  unfold densityFactor
+  have hne : (movableArea c.cells : Rat) / (rowPlacementArea c margin : Rat) ≠ 0 := by grind
+  have h1 := Rat.mul_le_mul_of_nonneg_right (Rat.le_of_lt hlt) (Rat.le_of_lt (Rat.inv_pos.mpr hd))
+  rw [Rat.mul_inv_cancel _ hne] at h1
+  rw [Rat.div_def]
+  exact h1
+
+/-- A movable cell whose width does not exceed the cap `maxRowWidth * maxExpandedWidth` is not narrower
+after `expandCellsToDensity` (positive movable and row area, non-negative `maxExpandedWidth`). -/
+theorem expand_not_narrower (c : Circuit) (target margin maxExp : Rat) (hA : 0 < movableArea c.cells)
+    (hR : 0 < rowPlacementArea c margin) (hx : 0 ≤ maxExp) (i : Nat)
+    (hw : ((c.cell i).w : Rat) ≤ widthCap c maxExp) :
+    (c.cell i).w ≤ ((expandCellsToDensity c target margin maxExp).cell i).w := by
+  unfold expandCellsToDensity
+  split
+  · exact Int.le_refl _
+  · rename_i hn
+    have hcap : 0 ≤ widthCap c maxExp :=
+      Rat.mul_nonneg (Rat.intCast_nonneg.mpr (maxRowWidth_nonneg c.rows)) hx
+    exact expandCells_not_narrower _ _ (factor_ge_one c target margin hA hR hn) hcap c.cells 0 i
+      (Rat.le_refl) hw
+
+/-- With factors at least 1, `expandCellsByFactor` makes no movable cell (of non-negative width) narrower. -/
+theorem expand_not_narrower_byFactor (c c' : Circuit) (efs : List Rat) (maxD margin ret : Rat)
+    (h : expandCellsByFactor c efs maxD margin = some (c', ret)) (he : ∀ e ∈ efs, 1 ≤ e) (i : Nat)
+    (hw : 0 ≤ (c.cell i).w) : (c.cell i).w ≤ (c'.cell i).w := by
+  unfold expandCellsByFactor at h
+  split at h
+  · simp at h
+  · simp only [Option.some.injEq] at h
+    unfold byFactorWith at h
+    split at h
+    · obtain ⟨rfl, _⟩ := Prod.mk.inj h; exact Int.le_refl _
+    · split at h
+      · obtain ⟨rfl, _⟩ := Prod.mk.inj h; exact Int.le_refl _
+      · rename_i hdens
+        obtain ⟨rfl, _⟩ := Prod.mk.inj h
+        apply applyFactors_not_narrower _ _ i _ hw
+        unfold effectiveFactors
+        split
+        · rename_i hadj
+          intro e' he'
+          obtain ⟨e, hem, rfl⟩ := List.mem_map.mp he'
+          have hd : density c margin < maxD := Rat.not_le.mp hdens
+          have hρ : 0 < capRatio c maxD margin (expandedArea c.cells efs) := by
+            unfold capRatio
+            apply rat_div_pos <;> grind
+          have h1 : (0 : Rat) ≤ (e - 1) * capRatio c maxD margin (expandedArea c.cells efs) :=
+            Rat.mul_nonneg (by have := he e hem; grind) (Rat.le_of_lt hρ)
+          unfold adjust
+          grind
+        · exact he
+
+/-- Carry bound, per cell: after each cell touched by the loop the carried missing area is in `[0, h)`
+for that cell's height `h`. -/
+theorem carry_bound_step (factor cap missing : Rat) (cl : Cell) (hf : 0 ≤ factor) (hcap : 0 ≤ cap)
+    (hm : 0 ≤ missing) (ha : active cl = true) :
+    0 ≤ stepMissing factor cap missing cl ∧ stepMissing factor cap missing cl < (cl.h : Rat) := by
+  unfold stepMissing
+  rw [if_pos ha]
+  exact newMissing_bounds factor cap missing cl hf hcap hm ha
+
+/-- Carry bound, whole call (density below target, positive areas, non-negative sizes):
+(1) the movable area afterwards is at most `target * rowArea`;
+(2) if no touched cell hits the width cap, it is more than `target * rowArea - H` for every bound `H > 0`
+    on the heights of the touched cells (e.g. the largest movable cell height). -/
+theorem carry_bound (c : Circuit) (target margin maxExp : Rat) (hA : 0 < movableArea c.cells)
+    (hR : 0 < rowPlacementArea c margin) (hx : 0 ≤ maxExp) (hsz : NonnegSizes c.cells)
+    (hn : ¬ densityNoop c target margin) :
+    ((movableArea (expandCellsToDensity c target margin maxExp).cells : Rat)
+        ≤ target * (rowPlacementArea c margin : Rat)) ∧
+    ((∀ cl ∈ c.cells, active cl = true → (cl.w : Rat) * densityFactor c target margin ≤ widthCap c maxExp) →
+      ∀ H : Int, 0 < H → (∀ cl ∈ c.cells, active cl = true → cl.h ≤ H) →
+        target * (rowPlacementArea c margin : Rat) - (H : Rat)
+          < (movableArea (expandCellsToDensity c target margin maxExp).cells : Rat)) := by
+  have hf1 := factor_ge_one c target margin hA hR hn
+  have hf0 : (0 : Rat) ≤ densityFactor c target margin := Rat.le_trans (by decide) hf1
+  have hcap : 0 ≤ widthCap c maxExp :=
+    Rat.mul_nonneg (Rat.intCast_nonneg.mpr (maxRowWidth_nonneg c.rows)) hx
+  have hAq : (0 : Rat) < (movableArea c.cells : Rat) := Rat.intCast_pos.mpr hA
+  have hRq : (0 : Rat) < (rowPlacementArea c margin : Rat) := Rat.intCast_pos.mpr hR
+  -- factor * A = target * R
+  have hfa : densityFactor c target margin * (movableArea c.cells : Rat) = target * (rowPlacementArea c margin : Rat) := by
+    unfold densityFactor
+    have hAne : (movableArea c.cells : Rat) ≠ 0 := by grind
+    have hRne : (rowPlacementArea c margin : Rat) ≠ 0 := by grind
+    grind
+  have hid := area_identity (densityFactor c target margin) (widthCap c maxExp) c.cells 0
+  have hcells : (expandCellsToDensity c target margin maxExp).cells =
+      expandCells (densityFactor c target margin) (widthCap c maxExp) 0 c.cells := by
+    unfold expandCellsToDensity; rw [if_neg hn]
+  rw [hcells]
+  constructor
+  · have hle := fracArea_le (densityFactor c target margin) (widthCap c maxExp) hf0 c.cells hsz
+    have hfin := finalMissing_bounds (densityFactor c target margin) (widthCap c maxExp) hf0 hcap 1 c.cells 0
+      (Rat.le_refl) (by decide)
+    -- only non-negativity of the final carry is needed; it holds without any height bound
+    have hnn : 0 ≤ finalMissing (densityFactor c target margin) (widthCap c maxExp) 0 c.cells := by
+      have : ∀ (l : List Cell) (m : Rat), 0 ≤ m →
+          0 ≤ finalMissing (densityFactor c target margin) (widthCap c maxExp) m l := by
+        intro l
+        induction l with
+        | nil => intro m hm; simpa [finalMissing] using hm
+        | cons cl rest ih =>
+          intro m hm
+          simp only [finalMissing]
+          exact ih _ (stepMissing_nonneg _ _ m cl hf0 hcap hm)
+      exact this c.cells 0 Rat.le_refl
+    grind
+  · intro hnocap H hH hHb
+    have heq := fracArea_eq (densityFactor c target margin) (widthCap c maxExp) c.cells hsz hnocap
+    have hfin := finalMissing_bounds (densityFactor c target margin) (widthCap c maxExp) hf0 hcap H c.cells 0
+      (Rat.le_refl) (Rat.intCast_pos.mpr hH) hHb
+    grind
+
+/-! ### expansion by factors stays under the cap -/
+
+/-- With factors at least 1, positive areas and non-negative sizes, the movable area after
+`expandCellsByFactor` is at most `max (maxDensity * rowArea) (area before)`. -/
+theorem byFactor_under_cap (c c' : Circuit) (efs : List Rat) (maxD margin ret : Rat)
+    (h : expandCellsByFactor c efs maxD margin = some (c', ret)) (he : ∀ e ∈ efs, 1 ≤ e)
+    (hA : 0 < movableArea c.cells) (hR : 0 < rowPlacementArea c margin) (hsz : NonnegSizes c.cells) :
+    (movableArea c'.cells : Rat) ≤ max (maxD * (rowPlacementArea c margin : Rat)) (movableArea c.cells : Rat) := by
+  have hAq : (0 : Rat) < (movableArea c.cells : Rat) := Rat.intCast_pos.mpr hA
+  have hRq : (0 : Rat) < (rowPlacementArea c margin : Rat) := Rat.intCast_pos.mpr hR
+  have hRne : (rowPlacementArea c margin : Rat) ≠ 0 := by grind
+  unfold expandCellsByFactor at h
+  split at h
+  · simp at h
+  · rename_i hvalid
+    have hlen : c.cells.length = efs.length := by
+      have : ¬ efs.length ≠ c.cells.length := fun hh => hvalid (Or.inl hh)
+      simp at this; exact this.symm
+    simp only [Option.some.injEq] at h
+    unfold byFactorWith at h
+    split at h
+    · obtain ⟨rfl, _⟩ := Prod.mk.inj h; exact rat_le_max_right _ _
+    · split at h
+      · obtain ⟨rfl, _⟩ := Prod.mk.inj h; exact rat_le_max_right _ _
+      · rename_i hdens
+        obtain ⟨rfl, _⟩ := Prod.mk.inj h
+        refine Rat.le_trans ?_ (rat_le_max_left _ _)
+        have hd : density c margin < maxD := Rat.not_le.mp hdens
+        have hdR : density c margin * (rowPlacementArea c margin : Rat) = (movableArea c.cells : Rat) := by
+          unfold density; exact Rat.div_mul_cancel hRne
+        simp only
+        unfold effectiveFactors
+        split
+        · rename_i hadj
+          -- adjusted: the expanded area of the adjusted factors is exactly maxD * R
+          have hx : 0 < expandedArea c.cells efs / (rowPlacementArea c margin : Rat) - density c margin := by grind
+          have hρ : 0 < capRatio c maxD margin (expandedArea c.cells efs) := by
+            unfold capRatio; apply rat_div_pos <;> grind
+          have hnn : ∀ e ∈ efs.map (adjust (capRatio c maxD margin (expandedArea c.cells efs))), 0 ≤ e := by
+            intro e' he'
+            obtain ⟨e, hem, rfl⟩ := List.mem_map.mp he'
+            have h1 : (0 : Rat) ≤ (e - 1) * capRatio c maxD margin (expandedArea c.cells efs) :=
+              Rat.mul_nonneg (by have := he e hem; grind) (Rat.le_of_lt hρ)
+            unfold adjust; grind
+          have hle := applyFactors_area_le c.cells _ hsz hnn (by simpa using hlen)
+          rw [expandedArea_adjust _ c.cells efs hlen] at hle
+          have hER : expandedArea c.cells efs / (rowPlacementArea c margin : Rat) * (rowPlacementArea c margin : Rat)
+              = expandedArea c.cells efs := Rat.div_mul_cancel hRne
+          have hxne : expandedArea c.cells efs / (rowPlacementArea c margin : Rat) - density c margin ≠ 0 := by grind
+          have hkey : capRatio c maxD margin (expandedArea c.cells efs) *
+              (expandedArea c.cells efs - (movableArea c.cells : Rat)) =
+              maxD * (rowPlacementArea c margin : Rat) - (movableArea c.cells : Rat) := by
+            unfold capRatio
+            have : expandedArea c.cells efs - (movableArea c.cells : Rat) =
+                (expandedArea c.cells efs / (rowPlacementArea c margin : Rat) - density c margin) *
+                  (rowPlacementArea c margin : Rat) := by grind
+            rw [this, ← Rat.mul_assoc, Rat.div_mul_cancel hxne]
+            grind
+          grind
+        · rename_i hadj
+          have hnn : ∀ e ∈ efs, (0 : Rat) ≤ e := fun e hem => Rat.le_trans (by decide) (he e hem)
+          have hle := applyFactors_area_le c.cells efs hsz hnn hlen
+          have hER : expandedArea c.cells efs / (rowPlacementArea c margin : Rat) ≤ maxD := Rat.not_lt.mp hadj
+          have h2 := Rat.mul_le_mul_of_nonneg_right hER (Rat.le_of_lt hRq)
+          rw [Rat.div_mul_cancel hRne] at h2
+          exact Rat.le_trans hle h2
+
+/-! ### expansion factors from a congestion map -/
+
+/-- `computeCellExpansion` throws exactly on a negative fixed penalty or a penalty factor below 1; otherwise
+it returns one factor per cell: 1 for a fixed cell; for a movable cell the factor is at least 1, at least
+`(c-1)*penaltyFactor + fixedPenalty + 1` for every congested region (`c > 1`) its placement intersects, and
+it is either 1 (only possible value when it intersects no congested region) or attained by such a region. -/
+theorem cellExpansion_max (c : Circuit) (cmap : List (Rect × Rat)) (fp pf : Rat) :
+    (computeCellExpansion c cmap fp pf = none ↔ (fp < 0 ∨ pf < 1)) ∧
+    ∀ l, computeCellExpansion c cmap fp pf = some l →
+      l.length = c.cells.length ∧
+      ∀ i, i < c.cells.length →
+        ((c.cell i).fixed = true → l.getD i 1 = 1) ∧
+        ((c.cell i).fixed = false →
+          1 ≤ l.getD i 1 ∧
+          (∀ r cg, (r, cg) ∈ cmap → cg > 1 → r.intersects (c.cell i).placement = true →
+            (cg - 1) * pf + fp + 1 ≤ l.getD i 1) ∧
+          (l.getD i 1 = 1 ∨ ∃ r cg, (r, cg) ∈ cmap ∧ cg > 1 ∧ r.intersects (c.cell i).placement = true ∧
+            l.getD i 1 = (cg - 1) * pf + fp + 1)) := by
+  unfold computeCellExpansion
+  constructor
+  · split <;> simp_all
+  · intro l hl
+    split at hl
+    · simp at hl
+    · simp only [Option.some.injEq] at hl
+      subst hl
+      refine ⟨by simp, ?_⟩
+      intro i hi
+      have hget : (c.cells.map fun cl =>
+          if cl.fixed then (1 : Rat) else regionMax cl.placement 1 (expansionMap cmap fp pf)).getD i 1 =
+          (if (c.cell i).fixed then (1 : Rat) else regionMax (c.cell i).placement 1 (expansionMap cmap fp pf)) := by
+        simp only [Circuit.cell, List.getD_eq_getElem?_getD, List.getElem?_map]
+        rw [List.getElem?_eq_getElem hi]
+        simp
+      rw [hget]
+      constructor
+      · intro hf; simp [hf]
+      · intro hf
+        simp only [hf, Bool.false_eq_true, if_false]
+        refine ⟨regionMax_ge_acc _ _ _, ?_, ?_⟩
+        · intro r cg hm hc hint
+          exact regionMax_ge_mem _ _ _ r _ ((mem_expansionMap cmap fp pf r _).mpr ⟨cg, hm, hc, rfl⟩) hint
+        · rcases regionMax_attained (c.cell i).placement (expansionMap cmap fp pf) 1 with h | ⟨r, e, hm, hint, he⟩
+          · exact Or.inl h
+          · obtain ⟨cg, hcm, hc, rfl⟩ := (mem_expansionMap cmap fp pf r e).mp hm
+            exact Or.inr ⟨r, cg, hcm, hc, hint, he⟩
+
+/-! ### the unrepaired `expandCellsByFactor` breaks the cap; non-vacuity -/
+
+/-- one movable cell 10 x 1 in a row 16 x 1, factor 19/16, maxDensity 85/128 -/
+def witness : Circuit :=
+  ⟨[⟨10, 1, 0, 0, .N, false, true, .ANY⟩], [], [⟨⟨0, 16, 0, 1⟩, .N⟩]⟩
+
+/-- On the unrepaired tree (expanded area truncated to an integer) the cell is widened to 11, so the movable
+area 11 exceeds `maxDensity * rowArea = 85/128 * 16 = 85/8`; the repaired function keeps the width 10. -/
+theorem legacy_byFactor_exceeds_cap :
+    ((LegacyExpand.expandCellsByFactor witness [19 / 16] (85 / 128) 0).map fun r => movableArea r.1.cells) = some 11 ∧
+    rowPlacementArea witness 0 = 16 ∧ (85 / 128 : Rat) * ((16 : Int) : Rat) < ((11 : Int) : Rat) ∧
+    ((expandCellsByFactor witness [19 / 16] (85 / 128) 0).map fun r => movableArea r.1.cells) = some 10 := by
+  decide +kernel
+
+-- the hypotheses of the quantitative theorems are satisfiable
+example : 0 < movableArea witness.cells ∧ 0 < rowPlacementArea witness 0 ∧ ¬ densityNoop witness (3 / 4) 0 := by
+  decide +kernel
+
+example : NonnegSizes witness.cells := by
+  intro cl hcl _
+  simp [witness] at hcl
+  subst hcl
+  decide
+
 end ColoVerif.C18
